@@ -438,4 +438,3 @@ func (it *stringIter) next() tuple {
 	it.i += n
 	return okv
 }
-
